@@ -111,6 +111,16 @@ CHECKS = {
                      "turns: C10_Exact / C10_NotBefore on every recv result, C16_NoLoss and C16_NeverPartial at the end, C16_LaterIntact / C07_Fifo / C11_ContinuationId per frame, "
                      "C08_Wake (not starved of credit) at quiescence.",
                 note="cancellation points are those a script can reach between scheduler turns, not every poll of the future"),
+    "C19": dict(technique="TLC model check of the SASL negotiation machines of both roles against a Dolev-Yao adversary with symbolic SCRAM terms (Sasl.tla: no authentication without the password, authentication needs a password-derived term, a non-OK outcome never authenticates; negative reachability controls); the same adversary's frame sequences enumerated by TLC as scripts (SaslGen.tla), turned into real bytes by an independent RFC 5802 implementation in the harness and played against the real ConnectionAcceptor / Connection::open; traces validated in TLC against the ideal machines (SaslTrace.tla)",
+                design="4/C19",
+                text="MC: for listener PLAIN / SCRAM and client SCRAM, an adversary whose alphabet excludes every term built from the password never drives the ideal machine to 'amqp' "
+                     "(4-5 frames, deep palettes); with the password it can (negative control). Conformance: every adversary sequence up to the bound for listener PLAIN / ANONYMOUS / "
+                     "SCRAM-SHA-256 (thorough: SHA-1, SHA-512, deep palettes) and client SCRAM / PLAIN / ANONYMOUS, each followed by an attempt to continue with AMQP and EOF. Clauses: "
+                     "C19_NoOpenWithoutAuth (OK outcome, AMQP header, AMQP frame or accept()=Ok only when the ideal listener is authenticated), C19_ClientMutual / C19_NonOkIsFailure (the "
+                     "client sends the AMQP header / open or returns Ok only after a valid server signature over the actual exchange with an extending nonce and an OK code), "
+                     "C19_BothFail (a refused exchange makes accept()/open() return an error), C19_NoPanic / C19_NoHang. Runs without any authenticated or refused exchange are tool errors.",
+                note="trusted: harness/src/scram.rs (descriptor -> bytes; written from RFC 5802 with the hash crates, shares no code with fe2o3-amqp) and the symbolic-crypto assumption; "
+                     "the endpoint may be stricter than the ideal machine; mechanism-name mismatches with otherwise valid credentials and iteration-count 0 are left undecided (DESIGN.md)"),
     "C17": dict(technique="TLC model check of channel allocation under the agreed channel-max and of heartbeat / idle time-out over a discrete clock (Limits.tla); TLC-generated channel-max pairs and timing scripts (LimitsGen.tla) executed on the paused tokio clock with 10 ms virtual steps; traces validated by the TLA+ observer",
                 design="4/C17",
                 text="MC: no begin above Min(local, remote); with remote time-out T a frame is written at least every T ticks; with local time-out L the endpoint is down exactly when nothing "
